@@ -1,12 +1,21 @@
 BASELINE_OFF = ("cd /repo && PATH=/root/go/pkg/mod/golang.org/toolchain@v0.0.1-go1.26.2.linux-amd64/bin:$PATH "
                 "GOTOOLCHAIN=local GOFLAGS=-mod=mod GOPROXY=off GOSUMDB=off go test -json -vet=off -count=1 -timeout 25m ./...")
 SOURCE_COMMITS = []  # no hook commits in /repo: oracle files are injected into scratch copies
-FIX_COMMITS = ["762de83", "76f4952", "32f4a4f"]
+FIX_COMMITS = ["762de83", "76f4952", "32f4a4f", "map-embedded-field"]
 NOTES = ("All checks: bin/check <id>. Each run regenerates coq/Gen from /repo, rebuilds the Coq project (full .vo), rebuilds garble "
          "from /repo's working tree in a scratch copy, runs the correspondence/e2e ties and rewrites evidence/<id>.json. "
          "Known findings: KNOWN_FINDINGS.txt.")
 NOT_APPLICABLE = {}
 CLAIMED = {
+    "C13": {
+        "text": "Theorems: the name of an object is one function of its descriptor and its declaring package's salt (no 'who asks' argument), renaming "
+                "preserves lexical resolution and interface satisfaction under the no-clash condition, a map entry equals the declaration name, reverse "
+                "inverts a functional table. Tied on real builds: every identifier of a 7-package corpus in the -debugdir tree (declaration and all uses, "
+                "cross-package) against Rename.decide+Names evaluated in Coq, `garble map` entries against declaration spellings, completeness of the "
+                "listing for package-level objects/fields/methods, and `garble reverse` on every listed name.",
+        "note": "Trusted: Coq kernel; objmap pairing tool (go/types, objectpath); python hashlib; the corpus is one module (thorough: 3 configurations). No axioms.",
+        "technique": "Coq proof over the naming-decision model + in-Coq correspondence with the -debugdir tree of a real build + map/reverse triple comparison",
+    },
     "C15": {
         "text": "Theorems (for every field-type universe and type identity): structs identical ignoring tags have the same shape hash and the same "
                 "obfuscated field names under every configuration; tags, declaring package and type-argument substitution never change the hash. "
